@@ -473,13 +473,37 @@ func c20single(ctx *vc.Ctx, idx *int) {
 // ---- sequences over the reduced alphabet --------------------------------------
 
 func c20sequences(ctx *vc.Ctx, idx *int) {
-	cfg := coordinate.DefaultConfig()
-	alpha := c20alphabet(int(cfg.Dimensionality))
 	n := 3
 	if ctx.Thorough() {
 		n = 4
 	}
-	scn := ctx.Scn(fmt.Sprintf("seq/len%d", n), "cases")
+	c20sequencesCfg(ctx, idx, fmt.Sprintf("seq/len%d", n), coordinate.DefaultConfig(), n)
+	// non-default configurations: each knob at a value that takes another path through the code
+	type knob struct {
+		name string
+		set  func(c *coordinate.Config)
+	}
+	knobs := []knob{
+		{"height-min=0", func(c *coordinate.Config) { c.HeightMin = 0 }},
+		{"height-min=0.5", func(c *coordinate.Config) { c.HeightMin = 0.5 }},
+		{"dimensionality=3", func(c *coordinate.Config) { c.Dimensionality = 3 }},
+		{"dimensionality=5", func(c *coordinate.Config) { c.Dimensionality = 5 }},
+		{"error-max=0.1", func(c *coordinate.Config) { c.VivaldiErrorMax = 0.1 }},
+		{"adjustment-window=0", func(c *coordinate.Config) { c.AdjustmentWindowSize = 0 }},
+		{"adjustment-window=1", func(c *coordinate.Config) { c.AdjustmentWindowSize = 1 }},
+		{"latency-filter=1", func(c *coordinate.Config) { c.LatencyFilterSize = 1 }},
+		{"gravity-rho=1", func(c *coordinate.Config) { c.GravityRho = 1 }},
+	}
+	for _, k := range knobs {
+		cfg := coordinate.DefaultConfig()
+		k.set(cfg)
+		c20sequencesCfg(ctx, idx, fmt.Sprintf("seq/len%d/%s", n-1, k.name), cfg, n-1)
+	}
+}
+
+func c20sequencesCfg(ctx *vc.Ctx, idx *int, name string, cfg *coordinate.Config, n int) {
+	alpha := c20alphabet(int(cfg.Dimensionality))
+	scn := ctx.Scn(name, "cases")
 	cur := make([]int, n)
 	seq := make([]*c20obs, n)
 	bt := &c20batch{ctx: ctx, scn: scn, cfg: cfg}
